@@ -185,12 +185,15 @@ Definition tpl_norm_ok (tpl : string) : bool :=
 Lemma templates_norm_ok : forallb (forallb tpl_norm_ok) tpl_lists = true.
 Proof. vm_compute. reflexivity. Qed.
 
+Lemma forallb_two {A} (P : A -> bool) (l1 l2 : list A) : forallb (forallb P) [l1; l2] = forallb P l1 && (forallb P l2 && true).
+Proof. reflexivity. Qed.
 Lemma in_lists_forallb (P : string -> bool) : forallb (forallb P) tpl_lists = true -> forall tpl, in_lists tpl -> P tpl = true.
 Proof.
-  intro H.
-  change (forallb P (client_templates default_templates) && (forallb P (client_templates ads_templates) && true) = true) in H.
+  intro H. unfold tpl_lists in H. rewrite forallb_two in H.
   apply andb_true_iff in H as [H1 H2]. apply andb_true_iff in H2 as [H2 _].
-  intros tpl [Hin|Hin]; [eapply forallb_forall in H1 | eapply forallb_forall in H2]; eauto.
+  intros tpl [Hin|Hin].
+  - rewrite forallb_forall in H1. exact (H1 tpl Hin).
+  - rewrite forallb_forall in H2. exact (H2 tpl Hin).
 Qed.
 
 (* names_relative_normalised for one rendering: every template of either tree, every valuation of words *)
@@ -202,3 +205,569 @@ Proof.
   destruct (sym_filename f tpl) as [r|] eqn:E; [|discriminate].
   destruct (get_filename_sound sg f tpl r Hv E) as [-> Hg]. unfold normalised. now apply sym_norm_sound.
 Qed.
+
+(* ------------------------------------------------------------------ lifting to the rendered instances of an API *)
+Definition word (s : string) : Prop := is_wordb s = true.
+Record wf_rapi (a : rapi) (old : bool) : Prop := {
+  wf_name : word (ra_name a);
+  wf_ver : ra_version a = "" \/ word (ra_version a);
+  wf_ns : ra_ns a = "" \/ pathok (ra_ns a) = true;
+  wf_nv : ra_nv a = ra_name a ++ (if is_empty (ra_version a) then "" else (if old then "." else "_") ++ ra_version a);
+  wf_protos : Forall (fun u => word (u_module u) /\ Forall word (u_sub u) /\ Forall word (u_services u)) (ra_protos a) }.
+Definition inst_wf (i : inst) : Prop :=
+  Forall word (i_view i) /\ (forall s, i_service i = Some s -> word s) /\ (forall p, i_proto i = Some p -> word p).
+
+Definition opt_str (o : option string) : string := match o with Some s => s | None => "" end.
+Definition is_some {A} (o : option A) : bool := match o with Some _ => true | None => false end.
+Definition val_of (a : rapi) (i : inst) : valuation :=
+  fun v => match v with
+           | VNs => ra_ns a | VName => ra_name a | VVer => ra_version a | VSub => sjoin "/" (i_view i)
+           | VSvc => opt_str (i_service i) | VProto => opt_str (i_proto i)
+           end.
+Definition flags_of (a : rapi) (old : bool) (i : inst) : flags :=
+  {| fl_ns := nonempty (ra_ns a); fl_ver := nonempty (ra_version a);
+     fl_sub := match i_view i with [] => false | _ => true end; fl_old := old;
+     fl_svc := is_some (i_service i); fl_proto := is_some (i_proto i) |}.
+
+Lemma opt_val_nonempty s : opt_val (nonempty s) s = s.
+Proof. destruct s; reflexivity. Qed.
+
+Lemma ctx_of_val_inst a old i : wf_rapi a old ->
+  ctx_of a (i_view i) (i_service i) (i_proto i) = ctx_of_val (val_of a i) (flags_of a old i).
+Proof.
+  intros W. unfold ctx_of, ctx_of_val, flags_of. cbn [fl_ns fl_ver fl_sub fl_old fl_svc fl_proto val_of].
+  rewrite !opt_val_nonempty. f_equal.
+  - rewrite (wf_nv a old W). unfold nv_atoms. cbn [fl_ver fl_old conc val_of].
+    unfold nonempty. destruct (ra_version a) as [|c v] eqn:Ev; simpl; rewrite ?Ev.
+    + reflexivity.
+    + destruct old; simpl; now rewrite sapp_nil_r.
+  - destruct (i_view i); reflexivity.
+  - destruct (i_service i); reflexivity.
+  - destruct (i_proto i); reflexivity.
+Qed.
+
+Lemma val_ok_inst a old i : wf_rapi a old -> inst_wf i -> val_ok (val_of a i) (flags_of a old i).
+Proof.
+  intros W (Hv & Hs & Hp). unfold val_ok, flags_of. cbn [fl_ns fl_ver fl_sub fl_svc fl_proto val_of]. repeat split.
+  - apply is_wordb_pathok, (wf_name a old W).
+  - intro H. destruct (wf_ns a old W) as [E|E]; [rewrite E in H; discriminate | exact E].
+  - intro H. destruct (wf_ver a old W) as [E|E]; [rewrite E in H; discriminate | now apply is_wordb_pathok].
+  - intro H. apply wds_join; [destruct (i_view i); [discriminate|discriminate] | exact Hv].
+  - intro H. destruct (i_service i) as [s|]; [|discriminate]. apply is_wordb_pathok, Hs. reflexivity.
+  - intro H. destruct (i_proto i) as [s|]; [|discriminate]. apply is_wordb_pathok, Hp. reflexivity.
+Qed.
+
+Lemma inst_name_normalised a old i :
+  in_lists (i_tpl i) -> wf_rapi a old -> inst_wf i -> normalised (inst_name a i) = true.
+Proof.
+  intros Hin W Hi. unfold inst_name. rewrite (ctx_of_val_inst a old i W).
+  apply get_filename_normalised; [assumption | now apply val_ok_inst].
+Qed.
+
+(* ---- invariants of render ---- *)
+Lemma collect_forall {A} (P : A -> Prop) (l : list (res (list A))) : forall r,
+  (forall rx, In (Ok rx) l -> Forall P rx) -> collect l = Ok r -> Forall P r.
+Proof.
+  induction l as [|x l IH]; intros r Hl H; simpl in H.
+  - inversion H. constructor.
+  - apply bind_ok in H as (a & -> & H). apply bind_ok in H as (b & Hb & H). inversion H; subst.
+    apply Forall_app. split; [apply Hl; now left | apply IH; [intros; apply Hl; now right | assumption]].
+Qed.
+
+Lemma sinsert_in x y l : In x (sinsert y l) <-> x = y \/ In x l.
+Proof.
+  induction l as [|z l IH]; simpl; [intuition|].
+  destruct (String.leb y z); simpl; [intuition | rewrite IH; intuition].
+Qed.
+Lemma ssort_in x l : In x (ssort l) <-> In x l.
+Proof. induction l as [|y l IH]; simpl; [tauto|]. rewrite sinsert_in, IH. intuition. Qed.
+
+Lemma protos_of_incl a view u : In u (protos_of a view) -> In u (ra_protos a) /\ is_prefix_list view (u_sub u) = true.
+Proof. unfold protos_of. rewrite filter_In. tauto. Qed.
+
+Lemma sub_names_word a old view n : wf_rapi a old -> In n (sub_names a view) -> word n.
+Proof.
+  intros W H. unfold sub_names in H. apply in_flat_map in H as (u & Hu & H).
+  apply protos_of_incl in Hu as [Hu _].
+  pose proof (wf_protos a old W) as Hp. rewrite Forall_forall in Hp. destruct (Hp u Hu) as (_ & Hsub & _).
+  destruct (_ && _); [|contradiction]. destruct (u_sub u) as [|x l]; [contradiction|].
+  destruct H as [<-|[]]. now inversion Hsub.
+Qed.
+
+Lemma subviews_word a old view v : wf_rapi a old -> Forall word view -> In v (subviews a view) -> Forall word v.
+Proof.
+  intros W Hv H. unfold subviews in H. apply in_map_iff in H as (n & <- & Hn).
+  apply (proj1 (ssort_in _ _)) in Hn. apply (proj1 (dedup_in _ _)) in Hn. apply Forall_app. split; [assumption|]. constructor; [|constructor].
+  exact (sub_names_word a old view n W Hn).
+Qed.
+
+Lemma kind_insts_inv a o old tpl view skip : wf_rapi a old -> Forall word view ->
+  Forall (fun i => i_tpl i = tpl /\ inst_wf i) (kind_insts a o tpl view skip).
+Proof.
+  intros W Hv. pose proof (wf_protos a old W) as Hp. rewrite Forall_forall in Hp.
+  unfold kind_insts. destruct (occurs "%proto" tpl); [|destruct (occurs "%service" tpl)].
+  - apply Forall_forall. intros i Hi. apply in_map_iff in Hi as (u & <- & Hu).
+    apply filter_In in Hu as [Hu _]. apply protos_of_incl in Hu as [Hu _]. destruct (Hp u Hu) as (Hm & _ & _).
+    split; [reflexivity|]. repeat split; cbn; [assumption | discriminate | intros p E; inversion E; now subst].
+  - apply Forall_forall. intros i Hi. apply in_map_iff in Hi as ([s sub] & <- & Hs).
+    apply filter_In in Hs as [Hs _]. unfold services_of in Hs. apply in_flat_map in Hs as (u & Hu & Hs).
+    apply in_rev, protos_of_incl in Hu as [Hu _]. destruct (Hp u Hu) as (_ & _ & Hsv).
+    apply in_map_iff in Hs as (s' & E & Hs'). inversion E; subst. rewrite Forall_forall in Hsv.
+    split; [reflexivity|]. repeat split; cbn; [assumption | intros p E'; inversion E'; subst; now apply Hsv | discriminate].
+  - constructor; [|constructor]. split; [reflexivity|]. repeat split; cbn; [assumption | discriminate | discriminate].
+Qed.
+
+Lemma render_inv a o old tpl : wf_rapi a old -> forall fuel view l,
+  Forall word view -> render fuel a o tpl view = Ok l -> Forall (fun i => i_tpl i = tpl /\ inst_wf i) l.
+Proof.
+  intros W. induction fuel as [|f IH]; intros view l Hv H; [discriminate|].
+  cbn [render] in H. destruct (negb (ggate o tpl)); [inversion H; constructor|].
+  apply bind_ok in H as (below & Hb & H). inversion H; subst. apply Forall_app. split.
+  - eapply collect_forall; [|exact Hb]. intros rx Hin. apply in_map_iff in Hin as (v & Hr & Hin).
+    apply (IH v); [|assumption]. destruct (occurs "%sub" tpl); [|contradiction]. eapply subviews_word; eauto.
+  - eapply kind_insts_inv; eauto.
+Qed.
+
+Lemma instances_inv templates a o old l : wf_rapi a old -> instances templates a o = Ok l ->
+  Forall (fun i => In (i_tpl i) (client_templates templates) /\ inst_wf i) l.
+Proof.
+  intros W H. unfold instances in H. destruct (existsb _ _); [discriminate|].
+  eapply collect_forall; [|exact H]. intros rx Hin. apply in_map_iff in Hin as (t & Hr & Ht).
+  eapply Forall_impl; [|eapply (render_inv a o old t W); [constructor|exact Hr]].
+  intros i [<- Hi]. split; assumption.
+Qed.
+
+(* names_relative_normalised: every candidate name of the response, for either template tree, every well-formed API
+   and every option set, is relative and normalised *)
+Lemma names_relative_normalised templates a o old names :
+  templates = default_templates \/ templates = ads_templates -> wf_rapi a old ->
+  candidates templates a o = Ok names -> Forall (fun n => normalised n = true) names.
+Proof.
+  intros Ht W H. unfold candidates in H. apply bind_ok in H as (l & Hl & H). inversion H; subst names.
+  apply Forall_forall. intros n Hn. apply (proj1 (dedup_in _ _)) in Hn. apply in_map_iff in Hn as (i & <- & Hi).
+  pose proof (instances_inv templates a o old l W Hl) as Hinv. rewrite Forall_forall in Hinv.
+  destruct (Hinv i Hi) as [Hin Hw]. apply (inst_name_normalised a old i); [|assumption|assumption].
+  destruct Ht as [->| ->]; [left|right]; assumption.
+Qed.
+
+(* ------------------------------------------------------------------ rootedness *)
+Definition ns_atoms (f : flags) : list atom := if fl_ns f then [Var VNs; Ch "/"%char] else [].
+Definition root_atoms (f : flags) : list atom := (ns_atoms f ++ nv_atoms f)%list.
+Definition alias_atoms (f : flags) : list atom := (ns_atoms f ++ [Var VName])%list.
+Definition root_tpl (tpl : string) : bool := starts_with "%namespace/%name_%version/" tpl.
+Definition alias_tpl (tpl : string) : bool := starts_with "%namespace/%name/" tpl.
+Definition pkg_base (f : flags) (tpl : string) : option (list atom) :=
+  if root_tpl tpl then Some (root_atoms f) else if alias_tpl tpl then Some (alias_atoms f) else None.
+
+Fixpoint strip_atoms (p a : list atom) : option (list atom) :=
+  match p, a with
+  | [], _ => Some a
+  | x :: p', y :: a' => if atom_eqb x y then strip_atoms p' a' else None
+  | _, [] => None
+  end.
+Lemma strip_atoms_sound p : forall a rest, strip_atoms p a = Some rest -> a = (p ++ rest)%list.
+Proof.
+  induction p as [|x p IH]; intros a rest H; simpl in H; [now inversion H|].
+  destruct a as [|y a]; [discriminate|]. destruct (atom_eqb x y) eqn:E; [|discriminate].
+  apply atom_eqb_eq in E. subst y. simpl. f_equal. now apply IH.
+Qed.
+
+Definition tpl_rooted_ok (tpl : string) : bool :=
+  forallb (fun f => match pkg_base f tpl, sym_filename f tpl with
+                    | Some base, Some r => match strip_atoms base r with Some (Ch c :: _) => is_slash c | _ => false end
+                    | None, Some _ => true
+                    | _, None => false
+                    end) all_flags.
+Lemma default_rooted_ok : forallb tpl_rooted_ok (client_templates default_templates) = true.
+Proof. vm_compute. reflexivity. Qed.
+(* every per-proto template and every per-service template of the default tree is a package template, or documentation / tests *)
+Lemma iterated_templates_placed :
+  forallb (fun t => negb (occurs "%proto" t) || root_tpl t) (client_templates default_templates) = true /\
+  forallb (fun t => negb (occurs "%service" t) || root_tpl t || starts_with "docs/" t || starts_with "tests/" t)
+          (client_templates default_templates) = true.
+Proof. vm_compute. split; reflexivity. Qed.
+
+(* python_sources_rooted (one rendering): a template below %namespace/%name_%version/ is written below
+   <namespace>/<name>_<version>/ (just <name> when unversioned), one below %namespace/%name/ below <namespace>/<name>/ *)
+Lemma get_filename_rooted tpl sg f base :
+  In tpl (client_templates default_templates) -> val_ok sg f -> pkg_base f tpl = Some base ->
+  exists rest r, sym_filename f tpl = Some r /\ r = (base ++ Ch "/"%char :: rest)%list /\ good sg r /\
+                 get_filename tpl (ctx_of_val sg f) = conc sg base ++ "/" ++ conc sg rest.
+Proof.
+  intros Hin Hv Hb. pose proof default_rooted_ok as H. rewrite forallb_forall in H. specialize (H tpl Hin).
+  unfold tpl_rooted_ok in H. rewrite forallb_forall in H. specialize (H f (all_flags_complete f)). rewrite Hb in H.
+  destruct (sym_filename f tpl) as [r|] eqn:E; [|discriminate].
+  destruct (strip_atoms base r) as [[|[c|v] rest]|] eqn:Es; try discriminate.
+  apply strip_atoms_sound in Es. unfold is_slash in H. apply Ascii.eqb_eq in H. subst c.
+  destruct (get_filename_sound sg f tpl r Hv E) as [Hn Hg]. exists rest, r. repeat split; try assumption.
+  rewrite Hn, Es, conc_app. reflexivity.
+Qed.
+
+(* ------------------------------------------------------------------ APIs whose proto sub-packages are at most one level deep *)
+Definition shallow (a : rapi) : Prop := Forall (fun u => List.length (u_sub u) <= 1) (ra_protos a).
+
+Lemma flat_map_nil {A B} (f : A -> list B) l : (forall x, In x l -> f x = []) -> flat_map f l = [].
+Proof. induction l as [|x l IH]; intro H; simpl; [reflexivity|]. rewrite (H x), IH; auto; [intros; apply H; now right | now left]. Qed.
+
+Lemma subviews_deep a v : shallow a -> v <> [] -> subviews a v = [].
+Proof.
+  intros Hs Hv. unfold subviews, sub_names. rewrite flat_map_nil; [reflexivity|].
+  intros u Hu. apply protos_of_incl in Hu as [Hu _]. unfold shallow in Hs. rewrite Forall_forall in Hs. specialize (Hs u Hu).
+  destruct (Nat.ltb (List.length v) (List.length (u_sub u))) eqn:E; [|reflexivity].
+  apply Nat.ltb_lt in E. destruct v; [congruence|]. simpl in E. lia.
+Qed.
+
+Lemma collect_map_ok {A B} (g : A -> res (list B)) (h : A -> list B) l :
+  (forall x, In x l -> g x = Ok (h x)) -> collect (map g l) = Ok (flat_map h l).
+Proof.
+  induction l as [|x l IH]; intro H; simpl; [reflexivity|].
+  rewrite (H x) by now left. simpl. rewrite IH by (intros; apply H; now right). reflexivity.
+Qed.
+
+Definition subs_of (a : rapi) (tpl : string) : list (list string) := if occurs "%sub" tpl then subviews a [] else [].
+Definition tpl_insts (a : rapi) (o : ropts) (tpl : string) : list inst :=
+  if ggate o tpl then
+    (flat_map (fun v => kind_insts a o tpl v false) (subs_of a tpl)
+     ++ kind_insts a o tpl [] (match subs_of a tpl with [] => false | _ => true end))%list
+  else [].
+
+Lemma subviews_top_nonempty a v : In v (subviews a []) -> exists n, v = [n] /\ In n (sub_names a []).
+Proof.
+  unfold subviews. intro H. apply in_map_iff in H as (n & <- & Hn).
+  apply (proj1 (ssort_in _ _)) in Hn. apply (proj1 (dedup_in _ _)) in Hn. exists n. split; [reflexivity|assumption].
+Qed.
+
+Lemma render_S f a o tpl view :
+  render (S f) a o tpl view =
+  if negb (ggate o tpl) then Ok [] else
+  bind (collect (map (render f a o tpl) (if occurs "%sub" tpl then subviews a view else [])))
+       (fun below => Ok (below ++ kind_insts a o tpl view
+                                  (match (if occurs "%sub" tpl then subviews a view else []) with [] => false | _ => true end))%list).
+Proof. reflexivity. Qed.
+
+Lemma render_shallow a o tpl k : shallow a -> render (S (S k)) a o tpl [] = Ok (tpl_insts a o tpl).
+Proof.
+  intro Hs. unfold tpl_insts. rewrite render_S. destruct (ggate o tpl) eqn:G; [|reflexivity]. cbn [negb].
+  fold (subs_of a tpl).
+  rewrite (collect_map_ok _ (fun v => kind_insts a o tpl v false)); [reflexivity|].
+  intros v Hv. assert (Hne : v <> []).
+  { unfold subs_of in Hv. destruct (occurs "%sub" tpl); [|contradiction].
+    apply subviews_top_nonempty in Hv as (n & -> & _). discriminate. }
+  rewrite render_S, G. cbn [negb]. rewrite (subviews_deep a v Hs Hne).
+  destruct (occurs "%sub" tpl); reflexivity.
+Qed.
+
+Lemma instances_shallow templates a o l : shallow a -> instances templates a o = Ok l ->
+  l = flat_map (tpl_insts a o) (client_templates templates).
+Proof.
+  intros Hs H. unfold instances in H. destruct (existsb _ _); [discriminate|].
+  rewrite (collect_map_ok _ (tpl_insts a o)) in H; [now inversion H|].
+  intros t _. apply render_shallow, Hs.
+Qed.
+
+(* ---- membership ---- *)
+Definition plain_tpl (tpl : string) : bool := negb (occurs "%proto" tpl) && negb (occurs "%service" tpl).
+Definition service_tpl (tpl : string) : bool := negb (occurs "%proto" tpl) && occurs "%service" tpl.
+Definition mk_inst (tpl : string) (view : list string) (s p : option string) : inst :=
+  {| i_tpl := tpl; i_view := view; i_service := s; i_proto := p |}.
+
+Lemma plain_kind a o tpl view skip : plain_tpl tpl = true -> kind_insts a o tpl view skip = [mk_inst tpl view None None].
+Proof.
+  unfold plain_tpl, kind_insts. intro H. apply andb_true_iff in H as [H1 H2]. apply negb_true_iff in H1, H2. now rewrite H1, H2.
+Qed.
+
+(* a plain template that passes the global gates is rendered for the top view, and for every sub-package view when it has %sub *)
+Lemma plain_in a o tpl view : plain_tpl tpl = true -> ggate o tpl = true ->
+  view = [] \/ (occurs "%sub" tpl = true /\ In view (subviews a [])) -> In (mk_inst tpl view None None) (tpl_insts a o tpl).
+Proof.
+  intros Hp Hg Hv. unfold tpl_insts. rewrite Hg. apply in_or_app. destruct Hv as [->|[Hs Hv]].
+  - right. rewrite plain_kind by assumption. now left.
+  - left. apply in_flat_map. exists view. split; [unfold subs_of; now rewrite Hs|]. rewrite plain_kind by assumption. now left.
+Qed.
+
+Lemma is_prefix_list_refl l : is_prefix_list l l = true.
+Proof. induction l; simpl; [reflexivity|]. now rewrite String.eqb_refl. Qed.
+Lemma sl_eqb_refl l : list_eqb String.eqb l l = true.
+Proof. induction l; simpl; [reflexivity|]. now rewrite String.eqb_refl. Qed.
+Lemma sl_eqb_eq a b : list_eqb String.eqb a b = true -> a = b.
+Proof. apply list_eqb_string_eq. Qed.
+
+(* the view a target proto is rendered in *)
+Lemma unit_view a u : shallow a -> In u (ra_protos a) ->
+  (u_sub u = [] \/ In (u_sub u) (subviews a [])) /\ In u (protos_of a (u_sub u)).
+Proof.
+  intros Hs Hu. split.
+  - unfold shallow in Hs. rewrite Forall_forall in Hs. specialize (Hs u Hu).
+    destruct (u_sub u) as [|n [|m l]] eqn:E; [now left| |simpl in Hs; lia]. right.
+    unfold subviews. apply in_map_iff. exists n. split; [reflexivity|].
+    apply ssort_in, dedup_in. unfold sub_names. apply in_flat_map. exists u. split.
+    + unfold protos_of. apply filter_In. split; [assumption|reflexivity].
+    + rewrite E. simpl. now left.
+  - unfold protos_of. apply filter_In. split; [assumption | apply is_prefix_list_refl].
+Qed.
+
+(* a per-service template with %sub that passes the gates is rendered once for every service of every target proto, in the
+   view of that proto *)
+Lemma service_in a o tpl u s : shallow a -> service_tpl tpl = true -> occurs "%sub" tpl = true ->
+  ggate o tpl = true -> sgate o tpl = true -> In u (ra_protos a) -> In s (u_services u) ->
+  In (mk_inst tpl (u_sub u) (Some s) None) (tpl_insts a o tpl).
+Proof.
+  intros Hs Hk Hsub Hg Hsg Hu Hsv. destruct (unit_view a u Hs Hu) as [Hview Hin].
+  unfold service_tpl in Hk. apply andb_true_iff in Hk as [K1 K2]. apply negb_true_iff in K1.
+  assert (Hsvc : In (s, u_sub u) (services_of a (u_sub u))).
+  { unfold services_of. apply in_flat_map. exists u. split; [now apply -> in_rev|]. apply in_map_iff. exists s. auto. }
+  unfold tpl_insts. rewrite Hg. apply in_or_app. destruct Hview as [E|Hv].
+  - right. unfold kind_insts. rewrite K1, K2. rewrite E in *. apply in_map_iff. exists (s, []). split; [reflexivity|].
+    apply filter_In. split; [assumption|]. cbn [snd]. rewrite Hsg. simpl. now rewrite andb_false_r.
+  - left. apply in_flat_map. exists (u_sub u). split; [unfold subs_of; now rewrite Hsub|].
+    unfold kind_insts. rewrite K1, K2. apply in_map_iff. exists (s, u_sub u). split; [reflexivity|].
+    apply filter_In. split; [assumption|]. now rewrite Hsg.
+Qed.
+
+Lemma proto_in a o tpl u : shallow a -> occurs "%proto" tpl = true -> occurs "%sub" tpl = true ->
+  ggate o tpl = true -> In u (ra_protos a) -> In (mk_inst tpl (u_sub u) None (Some (u_module u))) (tpl_insts a o tpl).
+Proof.
+  intros Hs Hk Hsub Hg Hu. destruct (unit_view a u Hs Hu) as [Hview Hin].
+  unfold tpl_insts. rewrite Hg. apply in_or_app. destruct Hview as [E|Hv].
+  - right. unfold kind_insts. rewrite Hk. apply in_map_iff. exists u. split; [now rewrite E|].
+    apply filter_In. split; [now rewrite E in Hin|]. rewrite E. simpl. now rewrite andb_false_r.
+  - left. apply in_flat_map. exists (u_sub u). split; [unfold subs_of; now rewrite Hsub|].
+    unfold kind_insts. rewrite Hk. apply in_map_iff. exists u. split; [reflexivity|]. apply filter_In. split; [assumption|reflexivity].
+Qed.
+
+(* what membership tells about an instance (templates with %sub) *)
+Lemma sub_names_nil_all a : sub_names a [] = [] -> forall u, In u (ra_protos a) -> u_sub u = [].
+Proof.
+  intros H u Hu. destruct (u_sub u) as [|n l] eqn:E; [reflexivity|]. exfalso.
+  assert (Hin : In n (sub_names a [])).
+  { unfold sub_names. apply in_flat_map. exists u. split; [unfold protos_of; apply filter_In; split; [assumption|reflexivity]|].
+    rewrite E. simpl. now left. }
+  rewrite H in Hin. contradiction.
+Qed.
+Lemma subviews_nil_all a : subviews a [] = [] -> forall u, In u (ra_protos a) -> u_sub u = [].
+Proof.
+  intro H. apply sub_names_nil_all. unfold subviews in H. apply map_eq_nil in H.
+  destruct (sub_names a []) as [|n l] eqn:E; [reflexivity|]. exfalso.
+  assert (Hin : In n (ssort (dedup (n :: l)))) by (apply ssort_in, dedup_in; now left).
+  rewrite H in Hin. contradiction.
+Qed.
+Lemma prefix_shallow_eq n sub : is_prefix_list [n] sub = true -> List.length sub <= 1 -> sub = [n].
+Proof.
+  destruct sub as [|m [|k l]]; simpl; intros H L; try discriminate; [|lia].
+  rewrite andb_true_r in H. apply String.eqb_eq in H. now subst.
+Qed.
+
+Definition top_skip (a : rapi) (tpl : string) : bool := match subs_of a tpl with [] => false | _ => true end.
+Lemma tpl_insts_split a o tpl i : In i (tpl_insts a o tpl) ->
+  ggate o tpl = true /\
+  exists view skip, In i (kind_insts a o tpl view skip) /\
+                    ((view = [] /\ skip = top_skip a tpl) \/ (In view (subs_of a tpl) /\ skip = false)).
+Proof.
+  unfold tpl_insts. destruct (ggate o tpl); [|contradiction]. intro H. split; [reflexivity|].
+  apply in_app_or in H as [H|H].
+  - apply in_flat_map in H as (v & Hv & H). exists v, false. auto.
+  - exists [], (top_skip a tpl). auto.
+Qed.
+
+Lemma kind_insts_basic a o tpl view skip i : In i (kind_insts a o tpl view skip) -> i_tpl i = tpl /\ i_view i = view.
+Proof.
+  unfold kind_insts. destruct (occurs "%proto" tpl); [|destruct (occurs "%service" tpl)]; intro H.
+  - apply in_map_iff in H as (u & <- & _). auto.
+  - apply in_map_iff in H as (u & <- & _). auto.
+  - destruct H as [<-|[]]. auto.
+Qed.
+
+Lemma tpl_insts_view a o tpl i : In i (tpl_insts a o tpl) ->
+  i_tpl i = tpl /\ ggate o tpl = true /\ (i_view i = [] \/ (occurs "%sub" tpl = true /\ In (i_view i) (subviews a []))).
+Proof.
+  intro H. apply tpl_insts_split in H as (G & view & skip & Hk & Hv).
+  apply kind_insts_basic in Hk as [E1 E2]. repeat split; try assumption. rewrite E2.
+  destruct Hv as [[-> _]|[Hv _]]; [now left|]. right. unfold subs_of in Hv. destruct (occurs "%sub" tpl); [auto|contradiction].
+Qed.
+
+Lemma tpl_insts_plain a o tpl i : plain_tpl tpl = true -> In i (tpl_insts a o tpl) -> i_service i = None /\ i_proto i = None.
+Proof.
+  intros Hp H. apply tpl_insts_split in H as (_ & view & skip & Hk & _). rewrite plain_kind in Hk by assumption.
+  destruct Hk as [<-|[]]. auto.
+Qed.
+
+(* under the filter of a block, a unit belongs to exactly the block's view *)
+Lemma unit_sub_view a tpl view skip sub : shallow a -> occurs "%sub" tpl = true ->
+  (exists u, In u (ra_protos a) /\ u_sub u = sub) -> is_prefix_list view sub = true ->
+  ((view = [] /\ skip = top_skip a tpl) \/ (In view (subs_of a tpl) /\ skip = false)) ->
+  negb (skip && negb (list_eqb String.eqb sub view)) = true -> sub = view.
+Proof.
+  intros Hs Hsub (u & Hu & Eu) Hp Hv Hf.
+  assert (Hl : List.length sub <= 1).
+  { rewrite <- Eu. unfold shallow in Hs. rewrite Forall_forall in Hs. apply Hs, Hu. }
+  unfold top_skip, subs_of in Hv. rewrite Hsub in Hv. destruct Hv as [[-> ->]|[Hv ->]].
+  - destruct (subviews a []) eqn:E.
+    + rewrite <- Eu. apply (subviews_nil_all a E u Hu).
+    + simpl in Hf. apply negb_true_iff, negb_false_iff in Hf. now apply sl_eqb_eq.
+  - apply subviews_top_nonempty in Hv as (n & -> & _). now apply prefix_shallow_eq.
+Qed.
+
+Lemma tpl_insts_service a o tpl i : shallow a -> service_tpl tpl = true -> occurs "%sub" tpl = true ->
+  In i (tpl_insts a o tpl) ->
+  exists s u, i_service i = Some s /\ i_proto i = None /\ In u (ra_protos a) /\ In s (u_services u) /\
+              u_sub u = i_view i /\ sgate o tpl = true.
+Proof.
+  intros Hs Hk Hsub H. apply tpl_insts_split in H as (_ & view & skip & Hi & Hv).
+  unfold service_tpl in Hk. apply andb_true_iff in Hk as [K1 K2]. apply negb_true_iff in K1.
+  unfold kind_insts in Hi. rewrite K1, K2 in Hi. apply in_map_iff in Hi as ([s sub] & <- & Hsv).
+  apply filter_In in Hsv as [Hsv Hf]. cbn [snd fst] in *. apply andb_true_iff in Hf as [Hf Hg].
+  unfold services_of in Hsv. apply in_flat_map in Hsv as (u & Hu & Hsv). apply in_rev, protos_of_incl in Hu as [Hu Hp].
+  apply in_map_iff in Hsv as (s' & E & Hs'). inversion E; subst s' sub.
+  exists s, u. cbn. repeat split; auto. eapply (unit_sub_view a tpl view skip); eauto.
+Qed.
+
+Lemma tpl_insts_proto a o tpl i : shallow a -> occurs "%proto" tpl = true -> occurs "%sub" tpl = true ->
+  In i (tpl_insts a o tpl) ->
+  exists u, In u (ra_protos a) /\ i_proto i = Some (u_module u) /\ i_service i = None /\ u_sub u = i_view i.
+Proof.
+  intros Hs Hk Hsub H. apply tpl_insts_split in H as (_ & view & skip & Hi & Hv).
+  unfold kind_insts in Hi. rewrite Hk in Hi. apply in_map_iff in Hi as (u & <- & Hu).
+  apply filter_In in Hu as [Hu Hf]. apply protos_of_incl in Hu as [Hu Hp].
+  exists u. cbn. repeat split; auto. eapply (unit_sub_view a tpl view skip); eauto.
+Qed.
+
+(* ------------------------------------------------------------------ __init__.py completeness *)
+Fixpoint slash_splits (t : list atom) : list (list atom) :=
+  match t with
+  | [] => []
+  | x :: t' => ((match x with Ch c => if is_slash c then [[]] else [] | Var _ => [] end) ++ map (cons x) (slash_splits t'))%list
+  end.
+Lemma slash_splits_in t1 t2 : In t1 (slash_splits (t1 ++ Ch "/"%char :: t2)).
+Proof.
+  induction t1 as [|x t1 IH]; simpl; [now left|]. apply in_or_app. right. now apply in_map.
+Qed.
+
+Fixpoint no_var (v : var) (t : list atom) : bool :=
+  match t with [] => true | Ch _ :: t' => no_var v t' | Var w :: t' => negb (var_eqb v w) && no_var v t' end.
+Lemma var_eqb_refl v : var_eqb v v = true.
+Proof. destruct v; reflexivity. Qed.
+Lemma no_var_in v t : no_var v t = true -> ~ In (Var v) t.
+Proof.
+  induction t as [|[c|w] t IH]; simpl; intros H Hin; [assumption| |].
+  - destruct Hin as [E|Hin]; [discriminate | now apply IH].
+  - apply andb_true_iff in H as [H1 H2]. destruct Hin as [E|Hin]; [|now apply IH].
+    inversion E; subst. rewrite var_eqb_refl in H1. discriminate.
+Qed.
+Lemma no_var_app v t1 t2 : no_var v (t1 ++ t2) = no_var v t1 && no_var v t2.
+Proof. induction t1 as [|[c|w] t1 IH]; simpl; [reflexivity|assumption|]. now rewrite IH, andb_assoc. Qed.
+
+Lemma conc_ext sg sg' t : (forall v, In (Var v) t -> sg v = sg' v) -> conc sg t = conc sg' t.
+Proof.
+  induction t as [|[c|v] t IH]; intro H; simpl; [reflexivity| |].
+  - f_equal. apply IH. intros v Hv. apply H. now right.
+  - rewrite (H v) by now left. f_equal. apply IH. intros w Hw. apply H. now right.
+Qed.
+
+Definition slash : ascii := "/"%char.
+Lemma app_slash_split w : contains slash w = false -> forall r x y,
+  w ++ r = x ++ String slash y -> exists x', x = w ++ x' /\ r = x' ++ String slash y.
+Proof.
+  induction w as [|a w IH]; intros Hw r x y H; [exists x; auto|].
+  cbn [contains] in Hw. apply orb_false_iff in Hw as [Ha Hw].
+  destruct x as [|b x].
+  - simpl in H. inversion H; subst. rewrite Ascii.eqb_refl in Ha. discriminate.
+  - simpl in H. inversion H; subst. destruct (IH Hw r x y H2) as (x' & -> & ->). exists x'. auto.
+Qed.
+Lemma conc_split_slash sg : forall t x y,
+  (forall v, In (Var v) t -> contains slash (sg v) = false) -> conc sg t = x ++ String slash y ->
+  exists t1 t2, t = (t1 ++ Ch slash :: t2)%list /\ conc sg t1 = x /\ conc sg t2 = y.
+Proof.
+  induction t as [|[c|v] t IH]; intros x y Hv H.
+  - destruct x; discriminate.
+  - destruct x as [|b x]; simpl in H; inversion H; subst.
+    + exists [], t. auto.
+    + destruct (IH x y (fun v Hin => Hv v (or_intror Hin)) H2) as (t1 & t2 & -> & <- & <-).
+      exists (Ch b :: t1), t2. auto.
+  - simpl in H. destruct (app_slash_split (sg v) (Hv v (or_introl eq_refl)) _ _ _ H) as (x' & -> & H').
+    destruct (IH x' y (fun w Hin => Hv w (or_intror Hin)) H') as (t1 & t2 & -> & <- & <-).
+    exists (Var v :: t1), t2. auto.
+Qed.
+
+Definition noctx (f : flags) : flags :=
+  {| fl_ns := fl_ns f; fl_ver := fl_ver f; fl_sub := fl_sub f; fl_old := fl_old f; fl_svc := false; fl_proto := false |}.
+Definition topctx (f : flags) : flags :=
+  {| fl_ns := fl_ns f; fl_ver := fl_ver f; fl_sub := false; fl_old := fl_old f; fl_svc := false; fl_proto := false |}.
+Definition gate_opts (m u : bool) : ropts :=
+  {| ro_metadata := m; ro_transport := []; ro_unversioned_disabled := u; ro_rest_async := false |}.
+Definition ggate_le (tpl tpl' : string) : bool :=
+  forallb (fun m => forallb (fun u => implb (ggate (gate_opts m u) tpl) (ggate (gate_opts m u) tpl')) [true; false]) [true; false].
+Lemma bool_in_tf (b : bool) : In b [true; false].
+Proof. destruct b; simpl; auto. Qed.
+Lemma ggate_le_sound tpl tpl' o : ggate_le tpl tpl' = true -> ggate o tpl = true -> ggate o tpl' = true.
+Proof.
+  intros H G. unfold ggate_le in H. rewrite forallb_forall in H.
+  specialize (H (ro_metadata o) (bool_in_tf _)). rewrite forallb_forall in H.
+  specialize (H (ro_unversioned_disabled o) (bool_in_tf _)).
+  change (ggate (gate_opts (ro_metadata o) (ro_unversioned_disabled o)) tpl) with (ggate o tpl) in H.
+  change (ggate (gate_opts (ro_metadata o) (ro_unversioned_disabled o)) tpl') with (ggate o tpl') in H.
+  rewrite G in H. exact H.
+Qed.
+Definition sgate_always (t : string) : bool :=
+  (negb (occurs "transport" t) || occurs "__init__" t || occurs "base" t || occurs "README" t)
+  && negb (occurs "async_client" t) && negb (occurs "rest_asyncio" t) && negb (occurs "rest_base" t).
+Lemma sgate_always_sound t o : sgate_always t = true -> sgate o t = true.
+Proof.
+  unfold sgate_always, sgate, desired_transport. intro H.
+  repeat (apply andb_true_iff in H as [H ?]).
+  repeat match goal with Hn : negb _ = true |- _ => apply negb_true_iff in Hn; rewrite Hn end.
+  cbn [andb orb]. rewrite !orb_false_r. apply negb_true_iff.
+  destruct (occurs "transport" t); [|reflexivity]. cbn [negb orb] in H. cbn [andb]. apply negb_false_iff.
+  cbn [app existsb]. rewrite !orb_assoc. apply orb_true_iff. left. rewrite <- !orb_assoc in H. rewrite <- !orb_assoc. exact H.
+Qed.
+
+Definition opt_atoms_eqb (o : option (list atom)) (t : list atom) : bool :=
+  match o with Some r => list_eqb atom_eqb r t | None => false end.
+Definition sym_table (f : flags) : list (string * option (list atom)) :=
+  map (fun t => (t, sym_filename f t)) (client_templates default_templates).
+Definition consistent (f : flags) (tpl : string) : bool :=
+  Bool.eqb (fl_svc f) (service_tpl tpl) && Bool.eqb (fl_proto f) (occurs "%proto" tpl).
+Definition init_text : list atom := atoms_of "/__init__.py".
+
+(* explicit conditionals: vm_compute is strict, so the cheap discriminating test comes first *)
+Definition wit_same (f : flags) (tpl : string) (target : list atom) (e : string * option (list atom)) : bool :=
+  if opt_atoms_eqb (snd e) target then
+    plain_tpl (fst e) && (negb (fl_sub f) || occurs "%sub" (fst e)) && no_var VSvc target && no_var VProto target
+    && ggate_le tpl (fst e)
+  else false.
+Definition wit_top (tpl : string) (target : list atom) (e : string * option (list atom)) : bool :=
+  if opt_atoms_eqb (snd e) target then
+    plain_tpl (fst e) && no_var VSvc target && no_var VProto target && no_var VSub target && ggate_le tpl (fst e)
+  else false.
+Definition wit_svc (f : flags) (tpl : string) (target : list atom) (e : string * option (list atom)) : bool :=
+  if opt_atoms_eqb (snd e) target then
+    service_tpl tpl && service_tpl (fst e) && occurs "%sub" tpl && occurs "%sub" (fst e) && sgate_always (fst e)
+    && fl_svc f && negb (fl_proto f) && ggate_le tpl (fst e)
+  else false.
+
+Definition init_ok_entry (f : flags) (tf tn tt : list (string * option (list atom))) (e : string * option (list atom)) : bool :=
+  let tpl := fst e in
+  if negb (consistent f tpl) then true else
+  match pkg_base f tpl with
+  | None => true
+  | Some base =>
+      match snd e with
+      | None => false
+      | Some r =>
+          match strip_atoms base r with
+          | None => false
+          | Some rest =>
+              no_var VNs rest &&
+              forallb (fun t1 =>
+                         let target := (base ++ t1 ++ init_text)%list in
+                         if existsb (wit_same f tpl target) tn then true
+                         else if existsb (wit_top tpl target) tt then true
+                         else existsb (wit_svc f tpl target) tf)
+                      (slash_splits rest)
+          end
+      end
+  end.
+Definition init_ok_f (f : flags) : bool :=
+  let tf := sym_table f in let tn := sym_table (noctx f) in let tt := sym_table (topctx f) in
+  forallb (init_ok_entry f tf tn tt) tf.
+Lemma default_init_ok : forallb init_ok_f all_flags = true.
+Proof. vm_compute. reflexivity. Qed.
